@@ -1,53 +1,13 @@
 (* C20 — the discipline instantiated at the table regenerated from the Go source
    (Gen/LockSet.v).  Everything here is re-checked by vm_compute on every run. *)
 From Coq Require Import String List NArith Bool.
-From SeataV Require Import Conc.LockSet Conc.LockSetProofs Conc.Accounting Conc.AccountingProofs.
+From SeataV Require Import Conc.LockSet Conc.LockSetProofs Conc.LockSetListing Conc.Accounting Conc.AccountingProofs.
 From SeataV Require Gen.LockSet.
 Import ListNotations.
 Open Scope string_scope.
 
 Definition ls_table := SeataV.Gen.LockSet.ls_table.
 Definition ls_brackets := SeataV.Gen.LockSet.ls_brackets.
-
-(* the registries property C20 names: each must have access rows *)
-Definition ls_required : list string := [
-  "datasource/sql/datasource/base.BaseTableMetaCache.cache";
-  "datasource/sql/datasource/base.entry.lastAccess";
-  "datasource/sql/datasource.tableMetaCacheMap";
-  "datasource/sql/datasource.BasicSourceManager.tableMetaCache";
-  "datasource/sql.txHooks";
-  "datasource/sql/exec.commonHook";
-  "datasource/sql/exec.hookSolts";
-  "datasource/sql/undo.undoLogManagerMap";
-  "datasource/sql/undo.builders";
-  "remoting/loadbalance.Consistent.hashCircle";
-  "remoting/loadbalance.Consistent.sortedHashNodes";
-  "remoting/loadbalance.consistentInstance";
-  "remoting/getty.SessionManager.allSessions";
-  "remoting/getty.SessionManager.serverSessions";
-  "remoting/getty.SessionManager.sessionSize";
-  "remoting/getty.sessionManager";
-  "rm.rmCacheInstance";
-  "rm.ResourceManagerCache.resourceManagerMap"
-].
-
-(* listed findings (KNOWN_FINDINGS.txt, id race.commonHook): the common SQL hooks are
-   documented "not goroutine safe"; RegisterCommonHook / CleanCommonHook write the slice
-   without a lock while BuildExecutor reads it *)
-Definition ls_listed : listing := [
-  ("datasource/sql/exec.commonHook", "BuildExecutor", "RegisterCommonHook");
-  ("datasource/sql/exec.commonHook", "BuildExecutor", "CleanCommonHook");
-  ("datasource/sql/exec.commonHook", "RegisterCommonHook", "RegisterCommonHook");
-  ("datasource/sql/exec.commonHook", "RegisterCommonHook", "CleanCommonHook");
-  ("datasource/sql/exec.commonHook", "CleanCommonHook", "CleanCommonHook")
-].
-
-(* listed findings (ids leak.refresh-conn, leak.undo-conn): functions that take a pooled
-   connection and never give it back *)
-Definition ls_leak_listed : list string := [
-  "datasource/sql/datasource/base.BaseTableMetaCache.refresh";
-  "datasource/sql/undo/base.BaseUndoLogManager.Undo"
-].
 
 Lemma table_wf : wf_table ls_required ls_table = true.
 Proof. vm_compute. reflexivity. Qed.
@@ -119,3 +79,4 @@ Definition refresh_closed : bool :=
 Definition refresh_unit : unit_kind := if refresh_closed then URefreshFixed else URefreshPinned.
 Definition undo_closed : bool :=
   forallb (fun r => negb (fst (fst r) =? "datasource/sql/undo/base.BaseUndoLogManager.Undo") || snd r) ls_brackets.
+Definition undo_unit : unit_kind := UAtPhase2 undo_closed.
